@@ -36,7 +36,7 @@ theorem judgeC18_obs (ci : ClientInfo) (p : Bytes) (ci' : ClientInfo) (reply : O
            (if reply = some sshBannerExpected then pass true else failv "SSH identification string on an SSH flow not answered with SSH-2.0-1")
          else if !sshIdent p then
            (match reply with
-            | some r => if classify r = .ssh then failv "SSH banner sent for a malformed / unterminated identification string (later segment)" else pass true
+            | some r => if sshIdent r then failv "SSH banner sent for a malformed / unterminated identification string (later segment)" else pass true
             | none => pass true)
          else pass false)
       else if forced.isSome then pass false
@@ -48,7 +48,7 @@ theorem judgeC18_obs (ci : ClientInfo) (p : Bytes) (ci' : ClientInfo) (reply : O
         (if reply = some sshBannerExpected then pass true else failv "SSH identification string not answered with SSH-2.0-1")
       else
         match reply with
-        | some r => if classify r = .ssh then failv "SSH banner sent for a malformed / unterminated identification string" else pass ("SSH-".toUTF8.toList.isPrefixOf p)
+        | some r => if sshIdent r then failv "SSH banner sent for a malformed / unterminated identification string" else pass ("SSH-".toUTF8.toList.isPrefixOf p)
         | none => pass ("SSH-".toUTF8.toList.isPrefixOf p) := rfl
 
 theorem judgeC13_obs (ci : ClientInfo) (p : Bytes) (ci' : ClientInfo) (reply : Option Bytes) (forced : Option Nat) :
